@@ -32,13 +32,13 @@ type Solver struct {
 	timeout time.Duration
 	// statistics
 	Queries, NSat, NUnsat, NUnknown int
-	Wall                           time.Duration
-	dead                           bool
-	stack   []*slevel
-	defined map[int]bool
-	ufDecl  map[string]bool
-	Bytes   int
-	LastErr                        string
+	Wall                            time.Duration
+	dead                            bool
+	stack                           []*slevel
+	defined                         map[int]bool
+	ufDecl                          map[string]bool
+	Bytes                           int
+	LastErr                         string
 }
 
 func solverArgs(kind string, timeoutMs int) (string, []string) {
